@@ -78,7 +78,15 @@ func runSolver(ctx context.Context, solver, file string, timeoutS, seed int) sol
 	cmd.Run()
 	ms := time.Since(t0).Milliseconds()
 	s := out.String()
-	first := strings.TrimSpace(strings.SplitN(s, "\n", 2)[0])
+	first := ""
+	for _, ln := range strings.Split(s, "\n") {
+		ln = strings.TrimSpace(ln)
+		if ln == "" || strings.HasPrefix(ln, "WARNING") {
+			continue // z3 prints pattern warnings on stdout before the answer
+		}
+		first = ln
+		break
+	}
 	res := "unknown"
 	switch {
 	case first == "unsat":
